@@ -90,7 +90,7 @@ class Report:
         n = len(self.violations) + 1
         path = os.path.join(REPLAYS, f"{self.prop}-{n}.json")
         with open(path, "w") as f:
-            json.dump({"property": self.prop, "what": what, "case": replay_obj}, f, indent=1)
+            json.dump({"property": self.prop, "what": what, "tier": self.tier, "seed": seed(), "case": replay_obj}, f, indent=1)
         self.violations.append((what, path))
         return path
 
@@ -131,3 +131,57 @@ class Report:
 def die_machinery(msg):
     print(f"MACHINERY-FAILURE: {msg}", file=sys.stderr)
     sys.exit(EXIT_MACHINERY)
+
+
+def case_key(case):
+    """What identifies the case of a replay file among the cases of a run of the same check."""
+    k = case.get("kind")
+    if k == "history":
+        return json.dumps(case.get("history"))
+    if k == "macro":
+        r = case.get("rule") or {}
+        return r.get("yaml", "") + "".join(r.get("macros") or [])
+    if k == "fault":
+        return json.dumps([case.get("fault"), case.get("mode"), case.get("label")])
+    if k == "cli":
+        return json.dumps(case.get("invocation"), sort_keys=True)
+    if k == "binary":
+        return json.dumps([case.get("sections"), case.get("rule"), os.path.basename(str(case.get("object")))])
+    if k == "parse":
+        return json.dumps([case.get("mode"), case.get("lines"), case.get("reps")])
+    if k == "match":
+        return json.dumps([case.get("rule_yaml"), case.get("listing_text"), case.get("mfm"), case.get("ofm")])
+    return json.dumps(case, sort_keys=True)[:2000]
+
+
+def replay_by_rerun(prop, path):
+    """Replay for the checks whose cases live in an exhaustively enumerated universe (histories, documents, fault
+    realisations, invocations, objects built from the seed): the check is run again, on the current tree, at the
+    tier and seed of the replay file, with evidence and replays redirected to a scratch directory; the replay
+    reproduces (exit 1) iff that run reports a violation of the same clause for the same case."""
+    import subprocess
+    import sys
+    with open(path) as f:
+        rep = json.load(f)
+    want_key, want_clause = case_key(rep["case"]), rep["what"].split(" ")[0].split(":")[0]
+    tmp = os.path.join(scratch(), "replay-run")
+    env = dict(os.environ, VERIF_EVIDENCE_DIR=tmp, VERIF_REPLAY_DIR=os.path.join(tmp, "r"),
+               VERIF_SEED=str(rep.get("seed", seed())))
+    p = subprocess.run([sys.executable, os.path.join(VERIF, "check"), prop, "--tier", rep.get("tier", "quick")],
+                       env=env, capture_output=True, text=True)
+    if p.returncode not in (0, 1):
+        print(p.stdout[-2000:] + p.stderr[-2000:])
+        raise MachineryError(f"the re-run of {prop} failed (exit {p.returncode})")
+    hit = None
+    rdir = os.path.join(tmp, "r")
+    for fn in sorted(os.listdir(rdir)) if os.path.isdir(rdir) else []:
+        with open(os.path.join(rdir, fn)) as f:
+            r = json.load(f)
+        if case_key(r["case"]) == want_key and r["what"].split(" ")[0].split(":")[0] == want_clause:
+            hit = r
+            break
+    print(f"replay of {os.path.basename(path)} ({rep['what'][:100]}): "
+          + ("REPRODUCED on the current tree" if hit else "not reproduced on the current tree"))
+    if hit:
+        print(json.dumps(hit, indent=1)[:3000])
+    return 1 if hit else 0
